@@ -539,6 +539,7 @@ namespace c14
     void run(verif::Ctx& c, Shared& sh)
     {
       const uint64_t quick_cap = 150000000ull;  // points * monomials
+      const uint64_t thorough_cap = 6000000000ull;
 
       // ---------------------------------------------------------------- positive: base rules and refine prefixes
       struct Pre { const char* p; long long refines; };
@@ -554,11 +555,13 @@ namespace c14
           if(nominal < 0) continue;
           RuleT base;
           if(!c.check(DynamicFactory::create(base, String(b.name)), std::string(R::tag()) + " " + b.name + " :: create", "base rule not created")) continue;
-          if(pr.refines >= 2 && !c.thorough)
+          if(pr.refines >= 2)
           {
             uint64_t np = uint64_t(base.get_num_points());
             for(long long i = 0; i < pr.refines; ++i) np *= uint64_t(R::refine_count());
-            if(np * monomial_count(R::dim, nominal + 1) > quick_cap) { c.excluded("quick tier: refine*k of a large rule (covered by thorough)"); continue; }
+            const uint64_t cost = np * monomial_count(R::dim, nominal + 1);
+            if(!c.thorough && cost > quick_cap) { c.excluded("quick tier: refine*k of a large rule (covered by thorough)"); continue; }
+            if(c.thorough && cost > thorough_cap) { c.excluded("thorough tier: refine*k with points*monomials > 6e9 (the refinery code is rule independent)"); continue; }
           }
           std::string expect = NameModel::compose(b.name, pr.refines);
           positive(c, sh, name, expect, nominal, &base, pr.refines < 0 ? 0 : pr.refines, pr.refines < 0 ? "base" : "refined");
@@ -782,7 +785,7 @@ namespace c14
       "of the other shapes. A positive case is non-trivial when the rule was created and all monomials up to its nominal degree were compared "
       "with the closed form (hash = shape+name); a negative case is non-trivial when its whole neighbourhood was probed (hash = shape+seed name).";
     spec.bounds_quick = "all rules, all aliases, refine: and refine*0/1 on every rule, refine*2/3 where points*monomials <= 1.5e8; all negative families";
-    spec.bounds_thorough = "as quick, refine*2 and refine*3 on every rule without cap";
+    spec.bounds_thorough = "as quick, refine*2 and refine*3 on every rule where points*monomials <= 6e9 (excludes only refine*3 / refine*2 of the largest 3D Gauss-Legendre tensor rules)";
     spec.assumptions = {
       "nominal degrees: /verif/spec/cubature_degrees.tsv (transcribed from the driver sources / their cited literature; one row per rule; a rule without row fails, a row without rule fails)",
       "closed forms: simplex prod a_i!/(|a|+d)!, hypercube prod (1+(-1)^a_i)/(a_i+1); sums in long double; tolerance 1e-12 relative to max(sum|w m|, |I|)",
